@@ -13,18 +13,20 @@ Flat(F(_), n) == IF n = 0 THEN <<>> ELSE Flat(F, n - 1) \o F(n)
 
 Identity == {"as.Tuple", "Tuple.Unapply", "as.HList", "product.Tuple", "product.TupleFromHList", "product.Lift", "product.Flatten",
              "hlist.Of", "hlist.Case", "hlist.Lift", "hlist.Rift", "as.Func", "as.Supplier", "as.Curried", "as.UnTupled",
-             "curried.Func", "curried.Revert", "curried.SlipL", "unit.Func", "fn1.Merge", "hash.Tuple"}
+             "curried.Func", "curried.Revert", "curried.SlipL", "unit.Func", "fn1.Merge", "hash.Tuple",
+             \* the labelled products (fp.LabelledN of fp.Named components): construction, conversion from / to hlists, Unapply
+             "as.Labelled", "as.HListLabelled", "product.LabelledFromHList", "Labelled.Unapply"}
 Shifted == {"curried.Flip", "curried.FlipApply", "Func.ApplyFirst", "Func.ApplyLast"}     \* members of arity n act on n + 1 arguments
-Families == Identity \cup Shifted \cup {"Tuple.Head", "Tuple.Last", "Tuple.Init", "Tuple.Tail", "hlist.Reverse", "curried.Compose", "fp.Compose",
+Families == Identity \cup Shifted \cup {"Tuple.Head", "Tuple.Last", "Tuple.Init", "Tuple.Tail", "Labelled.Head", "Labelled.Last", "Labelled.Init", "Labelled.Tail", "hlist.Reverse", "curried.Compose", "fp.Compose",
                                         "fp.Id", "eq.Tuple", "ord.Tuple", "monoid.Tuple", "clone.Tuple"}
 
 W(fam, n) ==
   CASE fam \in Identity -> Iota(1, n)
     [] fam \in Shifted  -> Iota(1, n + 1)
-    [] fam = "Tuple.Head" -> <<1>>
-    [] fam = "Tuple.Last" -> <<n>>
-    [] fam = "Tuple.Init" -> Iota(1, n - 1)
-    [] fam = "Tuple.Tail" -> Iota(2, n)
+    [] fam \in {"Tuple.Head", "Labelled.Head"} -> <<1>>
+    [] fam \in {"Tuple.Last", "Labelled.Last"} -> <<n>>
+    [] fam \in {"Tuple.Init", "Labelled.Init"} -> Iota(1, n - 1)
+    [] fam \in {"Tuple.Tail", "Labelled.Tail"} -> Iota(2, n)
     [] fam = "hlist.Reverse" -> Rev(Iota(1, n))
     [] fam = "curried.Compose" -> Iota(1, n) \o <<99>>          \* g(f(a1..an)): f saw 1..n, then g ran
     [] fam = "fp.Compose" -> Iota(1, n) \o <<n + 1>>            \* f1 ; f2 ; .. ; fn in this order, each incrementing the tag
@@ -37,7 +39,9 @@ W(fam, n) ==
     [] fam = "clone.Tuple" -> [i \in 1..n |-> i + 500]
 Calls(fam, n) ==
   CASE fam \in {"as.Tuple", "Tuple.Unapply", "Tuple.Head", "Tuple.Last", "Tuple.Init", "Tuple.Tail", "as.HList", "product.Tuple",
-                "product.TupleFromHList", "product.Flatten", "hlist.Of", "hlist.Reverse", "fp.Id", "ord.Tuple"} -> 1       \* no user function involved
+                "product.TupleFromHList", "product.Flatten", "hlist.Of", "hlist.Reverse", "fp.Id", "ord.Tuple",
+                "as.Labelled", "as.HListLabelled", "product.LabelledFromHList", "Labelled.Unapply", "Labelled.Head", "Labelled.Last",
+                "Labelled.Init", "Labelled.Tail"} -> 1       \* no user function involved
     [] fam = "curried.Compose" -> 2
     [] fam \in {"fp.Compose", "fn1.Merge", "eq.Tuple", "hash.Tuple", "monoid.Tuple", "clone.Tuple"} -> n
     [] OTHER -> 1                                               \* the wrapped function runs exactly once
